@@ -36,7 +36,7 @@ def handle(case):
     sample = None
     for key, S, seg in specs:
         b0, bs = S["init_progr_len"], S["max_sk_sz"]
-        if b0 <= 0 or b0 > case.get("max_b0", 5) or bs > 8:
+        if b0 <= 0 or b0 > case.get("max_b0", 6) or bs > 8:
             _count("skipped_out_of_family")
             continue
         # brute force over all realizing sequences
@@ -151,7 +151,7 @@ def run():
     rnd = random.Random(common.seed() + 7)
     allb = list(c06.small_blocks(3))
     rnd.shuffle(allb)
-    n_small = 45 if quick else 500
+    n_small = 30 if quick else 500
     n_rand = 12 if quick else 120
     cases = []
     for oi, o in enumerate(OPTS):
@@ -160,6 +160,9 @@ def run():
         # common brute-force value
         for b in allb[:n_small]:
             cases.append({"block": b, "opts": o, "_group": g, "kind": "small-exhaustive-family", "_cpu": 90})
+        # the same load/store blocks under every option set
+        for b in c06.dep_blocks(random.Random(common.seed() + 707), 70 if quick else 700):
+            cases.append({"block": b, "opts": o, "_group": g, "kind": "load-store-blocks", "_cpu": 90})
         rr = random.Random(common.seed() + 77)
         for i in range(n_rand):
             b, k = gen.gen_block(rr, "short")
